@@ -1,0 +1,10 @@
+//go:build !verif
+
+package dagsync
+
+import (
+	"github.com/ipfs/go-cid"
+	"github.com/libp2p/go-libp2p/core/peer"
+)
+
+func verifPoint(string, peer.ID, cid.Cid) {}
